@@ -693,30 +693,45 @@ func MakeTracesDependancyGraph(startEpoch int64, endEpoch int64, myid int64) map
 		"endEpoch":      endEpoch,
 		"searchText":    "*",
 		"queryLanguage": "Splunk QL",
+		"from":          0,
+		"size":          1000,
 	}
-	requestBodyJSON, err := json.Marshal(requestBody)
-	if err != nil {
-		fmt.Printf("MakeTracesDependancyGraph: Error marshaling request body=%v, Error=%v", requestBody, err)
-		return nil
-	}
-	ctx := &fasthttp.RequestCtx{}
-	ctx.Request.SetBody(requestBodyJSON)
 
-	ctx.Request.Header.SetMethod("POST")
-	pipesearch.ProcessPipeSearchRequest(ctx, myid)
+	// A parent span can be in a later page than its child, so collect all the spans first.
+	spans := make([]*structs.Span, 0)
+	for from := 0; ; from += 1000 {
+		requestBody["from"] = from
+		requestBodyJSON, err := json.Marshal(requestBody)
+		if err != nil {
+			fmt.Printf("MakeTracesDependancyGraph: Error marshaling request body=%v, Error=%v", requestBody, err)
+			return nil
+		}
+		ctx := &fasthttp.RequestCtx{}
+		ctx.Request.SetBody(requestBodyJSON)
 
-	rawSpanData := structs.RawSpanData{}
-	if err := json.Unmarshal(ctx.Response.Body(), &rawSpanData); err != nil {
-		log.Errorf("MakeTracesDependancyGraph: could not unmarshal json body, err=%v", err)
-		return nil
+		ctx.Request.Header.SetMethod("POST")
+		pipesearch.ProcessPipeSearchRequest(ctx, myid)
+
+		rawSpanData := structs.RawSpanData{}
+		if err := json.Unmarshal(ctx.Response.Body(), &rawSpanData); err != nil {
+			log.Errorf("MakeTracesDependancyGraph: could not unmarshal json body, err=%v", err)
+			return nil
+		}
+
+		if len(rawSpanData.Hits.Spans) == 0 {
+			break
+		}
+
+		spans = append(spans, rawSpanData.Hits.Spans...)
 	}
+
 	spanIdToServiceName := make(map[string]string)
 	dependencyMatrix := make(map[string]map[string]int)
 
-	for _, span := range rawSpanData.Hits.Spans {
+	for _, span := range spans {
 		spanIdToServiceName[span.SpanID] = span.Service
 	}
-	for _, span := range rawSpanData.Hits.Spans {
+	for _, span := range spans {
 		if span.ParentSpanID == "" {
 			continue
 		}
